@@ -460,7 +460,9 @@ func (g *genCtx) openCapCases(thorough bool) []ccase {
 				f := wire.Family{AFI: afi, SAFI: safi}
 				o := openWith(c, func(caps []wire.Capability) []wire.Capability { return append(caps, wire.CapMP(f)) })
 				if g.rng.IntN(3) == 0 { // the only multiprotocol capability
-					o = openWith(c, func(caps []wire.Capability) []wire.Capability { return append(without(caps, wire.CapCodeMP), wire.CapMP(f)) })
+					o = openWith(c, func(caps []wire.Capability) []wire.Capability {
+						return append(without(caps, wire.CapCodeMP), wire.CapMP(f))
+					})
 				}
 				emit("open-caps-mp", c, o, famTags("open_mp_capability", c, f), fmt.Sprintf("valid OPEN with the multiprotocol capability afi %d safi %d (peer families: v4=%v v6=%v)", afi, safi, c.V4, c.V6))
 				nhafi := []uint16{1, 2, 0, 25}[g.rng.IntN(4)]
@@ -486,7 +488,9 @@ func (g *genCtx) openCapCases(thorough bool) []ccase {
 		emit("open-caps-other", c, openWith(c, func(caps []wire.Capability) []wire.Capability {
 			return append(without(caps, wire.CapCodeAS4), wire.CapAS4(c.PeerAS()), wire.CapAS4(c.PeerAS()))
 		}), []string{"open_capability_twice"}, "valid OPEN with the 4-octet AS capability twice")
-		emit("open-caps-other", c, openWith(c, func(caps []wire.Capability) []wire.Capability { return append(caps, wire.CapRouteRefresh(), wire.Capability{Code: 70}, wire.Capability{Code: 128}) }), []string{"open_unknown_capability"}, "valid OPEN with route refresh capabilities (2, 70, 128)")
+		emit("open-caps-other", c, openWith(c, func(caps []wire.Capability) []wire.Capability {
+			return append(caps, wire.CapRouteRefresh(), wire.Capability{Code: 70}, wire.Capability{Code: 128})
+		}), []string{"open_unknown_capability"}, "valid OPEN with route refresh capabilities (2, 70, 128)")
 		for k := 0; k < 4; k++ {
 			code := uint8(g.rng.IntN(256))
 			for code == wire.CapCodeMP || code == wire.CapCodeAS4 || code == wire.CapCodeAddPath || code == wire.CapCodeRole || code == wire.CapCodeExtNextHop {
